@@ -156,42 +156,49 @@ Proof. exact set_mtu_spec. Qed.
 
 (** ** failure is an error, never a truncation or a false success; the client stays usable *)
 
-(** ANY procedure with ANY arguments on ANY well-formed database: the outcome is a value, an
-    ATT error or a GATT timeout (never another exception, never out of fuel, never blocked), and
-    the connection is again between two procedures (lock free, queue empty, no prepared write
-    pending), provided a Write Command is not one the server refuses. *)
+(** [ready c s mtu] = between two procedures as the client really leaves it: like [clean], but
+    the GATT message queue may hold Error Responses the server sent for refused Write Commands
+    (nobody waits for those).
+
+    ANY procedure with ANY arguments on ANY well-formed database, from any ready state: the
+    outcome is a value, an ATT error or a GATT timeout (never another exception, never out of
+    fuel, never blocked), and the connection is ready again (lock free, no prepared write
+    pending, nothing in the queue that a later procedure could take for its answer). *)
 Theorem C09_failure_is_error_client_usable :
   forall o c s mtu,
-    clean c s mtu -> sinv s -> args_ok o -> cmd_not_refused o s ->
+    ready c s mtu -> sinv s -> args_ok o ->
     exists out c' s' mtu',
-      run_op o c s = (out, c', s') /\ usable out /\ clean c' s' mtu' /\ sinv s'.
-Proof. exact run_op_usable. Qed.
+      run_op o c s = (out, c', s') /\ usable out /\ ready c' s' mtu' /\ sinv s'.
+Proof. exact run_op_ready. Qed.
 
-(** FULL STATEMENT of "after any outcome the client is able to run the next procedure", over
-    operation sequences.  Refuted by the faithful model: a refused Write Command is answered
-    with an Error Response nobody waits for (KNOWN-FINDING
-    write-command-error-response-desyncs-client). *)
-Definition C09_client_usable_after_statement : Prop :=
+(** "after any outcome the client is able to run the next procedure", over ANY sequence of
+    procedures with any arguments (FULL statement; it was refuted by the write-command
+    desynchronisation until wait_for_message was repaired) *)
+Theorem C09_client_usable_after :
   forall ops c s mtu,
-    clean c s mtu -> sinv s -> Forall args_ok ops ->
+    ready c s mtu -> sinv s -> Forall args_ok ops ->
     exists outs c' s' mtu',
-      run_ops ops c s = (outs, c', s') /\ Forall usable outs /\ clean c' s' mtu' /\ sinv s'.
+      run_ops ops c s = (outs, c', s') /\ Forall usable outs /\ ready c' s' mtu' /\ sinv s'.
+Proof. exact run_ops_ready. Qed.
 
-Theorem C09_client_usable_after_refuted :
-  exists ops d,
-    wf_dbb d = true /\ Forall args_ok ops
-    /\ (let '(outs, c', _) := run_ops ops client_init (server_init d) in
-        c_q c' <> []
-        /\ nth 2 outs Blocked = Ok (VBytes (repeat 9%N 22))
-        /\ lookup d 4 = Some (ADesc [1; 41] [1; 2])%N).
-Proof. exact client_usable_after_refuted. Qed.
+(** a procedure that waits for an answer behaves EXACTLY as if the stale command errors were
+    not in the queue: all the theorems stated from a [clean] state apply from a [ready] one *)
+Theorem C09_stale_command_errors_ignored :
+  forall o c s mtu,
+    ready c s mtu -> args_ok o -> waits o = true ->
+    run_op o c s = run_op o (flush c) s /\ clean (flush c) s mtu.
+Proof. exact stale_command_errors_ignored. Qed.
 
-Theorem C09_client_usable_after_partial :
-  forall ops c s mtu,
-    clean c s mtu -> sinv s -> Forall args_ok ops -> no_refused_cmd ops c s ->
-    exists outs c' s' mtu',
-      run_ops ops c s = (outs, c', s') /\ Forall usable outs /\ clean c' s' mtu' /\ sinv s'.
-Proof. exact run_ops_usable. Qed.
+(** the former witness of the desynchronisation (refused Write Command, then reads of two
+    attributes) now returns each attribute's own value; a second refused command followed by a
+    long write and a long read works as well *)
+Theorem C09_refused_command_regression :
+  run_ops [OWriteCmd 99 [1%N]; ORead 3; ORead 4; OWriteCmd 0 []; OWriteLong 3 (repeat 5%N 40); OReadLong 3]
+          client_init (server_init d_wit)
+  = ([Ok VTrue; Ok (VBytes (repeat 9%N 22)); Ok (VBytes [1; 2]%N); Ok VTrue; Ok VTrue; Ok (VBytes (repeat 5%N 40))],
+     client_init,
+     server_init (update d_wit 3 (AValue [0; 42]%N (repeat 5%N 40)))).
+Proof. exact refused_command_regression. Qed.
 
 (** procedures that cannot complete do raise *)
 Theorem C09_read_not_permitted_raises :
